@@ -182,7 +182,7 @@ package zygo
 //@ C01 ensures r0 == (stack.tos < 0)
 
 //@ func (*Stack).Get
-//@ requires wfs(stack)
+//@ requires typeinv[Stack] wfs(stack)
 //@ requires n >= 0
 //@ C01 nopanic
 //@ C01 pure
@@ -190,14 +190,14 @@ package zygo
 //@ C01 ensures underflow: r1 != nil ==> n > stack.tos
 
 //@ func (*Stack).Push
-//@ requires wfs(stack)
+//@ requires typeinv[Stack] wfs(stack)
 //@ C01 nopanic
 //@ C01,C15,C19 modifies stack.tos, stack.elements, elems(stack.elements)
 //@ C01,C15,C19 ensures wfs(stack) && stack.tos == old(stack.tos) + 1 && stack.elements[stack.tos] == elem
 //@ C01 ensures keeps: forall(k, 0 <= k && k <= old(stack.tos) ==> stack.elements[k] == old(stack.elements[k]))
 
 //@ func (*Stack).Pop
-//@ requires wfs(stack)
+//@ requires typeinv[Stack] wfs(stack)
 //@ C01 nopanic
 //@ C01 modifies stack.tos, stack.elements, elems(stack.elements)
 //@ C01 ensures ok: r1 == nil ==> wfs(stack) && old(stack.tos) >= 0 && stack.tos == old(stack.tos) - 1 && r0 == old(stack.elements[stack.tos])
@@ -205,14 +205,14 @@ package zygo
 //@ C01 ensures underflow: r1 != nil ==> old(stack.tos) < 0 && stack.tos == old(stack.tos) && len(stack.elements) == old(len(stack.elements))
 
 //@ func (*Stack).TruncateToSize
-//@ requires wfs(stack)
+//@ requires typeinv[Stack] wfs(stack)
 //@ C01 nopanic
 //@ C01 modifies stack.tos, stack.elements, elems(stack.elements)
 //@ C01 ensures wfs(stack) && stack.tos == ite(newsize < 0, 0, newsize) - 1
 //@ C01 loop 0 invariant 0 <= i && 0 <= newsize && newsize <= len(stack.elements) && len(stack.elements) == old(len(stack.elements)) && sarr(stack.elements) == old(sarr(stack.elements))
 
 //@ func (*Stack).Clone
-//@ requires wfs(stack)
+//@ requires typeinv[Stack] wfs(stack)
 //@ C01 nopanic
 //@ C01 pure
 //@ C01 ensures fresh(r0) && wfs(r0) && r0.tos == stack.tos && r0.env == stack.env
